@@ -16,7 +16,7 @@ PROPS['C13'] = dict(
                 thorough=dict(args=['--maxn', '9'], scale=8.0, shards=4))],
     rule=('enumerated: every grid size n (2..6 quick, 2..9 thorough) x every window incl. empty and point-like x '
           '{single-window accessors over indices 0..n+2 and around SIZE_MAX, SIZE_MAX/2, 2^32, 2^63; all pairs x 5 grid relations '
-          '(shared, equal copy, point moved, shorter, longer); all triples}; random: grids of 2..200 points, constructed placement classes. '
+          '(shared, equal copy, point moved, shorter, longer); all triples; moved-from supports (move construction and move assignment out of every window) against every kind of empty support}; random: grids of 2..200 points, constructed placement classes. '
           'Oracle = windows as index sets. Non-trivial: single windows always; pairs unless identical windows on a shared grid; triples unless all three windows equal. '
           'Distinct = distinct case text (n, windows, grid relation).'),
     exhaustive_part='all windows, pairs and triples of windows on grids of 2..maxn points (index behaviour does not depend on the point values)',
@@ -93,7 +93,7 @@ PROPS['C11'] = dict(
     rule=('valid and invalid arguments in comparable shares for every validating entry point: Grid (vector / iterator pair over vector and list / initializer_list / shared_ptr / null shared_ptr) over sequences of 0..9 values built from an '
           'increasing base by {nothing, swap two, duplicate one, NaN anywhere, +-inf at the proper end or anywhere, +0/-0 pair, denormal gaps, DBL_MAX / nextafter(1)}; Support(grid,s,e) over s,e in [0,n+2] and SIZE_MAX-k; '
           'Spline(support, coefficients) with every count 0..n+1 on empty/point/interval windows; BSplineGenerator(knots), BSplineGenerator(knots, grid) with matching and four kinds of non-matching grid, generateBSplines<p> (p=0..4, 0..p+4 knots, repeated knots, inversions, NaN); '
-          'linearCombination over (#coefficients,#splines) in 0..4 squared, three overloads; interpolate (exact solver and bundled Eigen solver) over window sizes 0..5 x ordinate counts 0..5 x boundary derivative orders 0..order+2. '
+          'linearCombination over (#coefficients,#splines) in 0..4 squared, three overloads, members ordinary / all empty / all point-like / first or last empty / mixed; interpolate (exact solver and bundled Eigen solver) over window sizes 0..5 x ordinate counts 0..5 x boundary derivative orders 0..order+2. '
           'Oracle: accepted IFF valid by a predicate transcribed from the statement; every refusal must be BSplineException. Non-trivial: invalid with exactly one defect / one-off count, or valid at a boundary (n=2, (0,0), end==size, m=p+1, special values).'),
     technique='rapidcheck generation of valid/invalid arguments against independent validity predicates (accept-iff-valid, exception type)',
     level_text='Generated-input search in both directions (invalid refused, valid accepted) with defects placed at generated positions and special floating-point values; sampling, not proof.',
